@@ -164,10 +164,10 @@ func c19Doc(in c19In) string {
 	return string(b)
 }
 
-// the request target under which the description places an operation: base path joined with the template,
-// the placeholder filled in
+// the request target under which the description places an operation: base path followed by the template as
+// written (the way a client builds it, not through the library's path.Join), the placeholder filled in
 func c19Target(in c19In, o c19Op) string {
-	return strings.ReplaceAll(path.Join(in.BasePath, o.Path), "{id}", "1")
+	return strings.ReplaceAll(strings.TrimSuffix(in.BasePath, "/")+o.Path, "{id}", "1")
 }
 
 func c19Sec(alts [][]string) []any {
@@ -381,15 +381,41 @@ func (c19) Coq(inAny any, obsAny any) string {
 }
 
 func (c19) Classify(inAny any, obsAny any) []string {
-	obs := obsAny.(c19Obs)
-	if obs.Err == nil && obs.Default == "" {
-		for _, s := range obs.Served {
-			if s.Outcome == 2 {
-				return []string{"validate.no_produces_no_default_producer"}
-			}
+	in, obs := inAny.(c19In), obsAny.(c19Obs)
+	if obs.Err != nil || obs.Panicked || obs.OtherErr != "" {
+		return nil
+	}
+	// a validated API: every operation that was not routed or not served must be explained by one of the open findings,
+	// else the case is a new violation
+	unrouted := map[int]bool{}
+	for _, rt := range obs.Routed {
+		if !rt.Found {
+			unrouted[rt.Op] = true
 		}
 	}
-	return nil
+	outcome := map[int]int{}
+	for _, sv := range obs.Served {
+		outcome[sv.Op] = sv.Outcome
+	}
+	kf := map[string]bool{}
+	for i, o := range in.Ops {
+		k, served := outcome[i]
+		switch {
+		case !unrouted[i] && k == 0:
+		case !unrouted[i] && k == 2 && obs.Default == "":
+			kf["validate.no_produces_no_default_producer"] = true
+		case unrouted[i] && (!served || k == 4) && path.Clean(o.Path) != o.Path:
+			kf["validate.template_not_clean"] = true
+		default:
+			return nil
+		}
+	}
+	var out []string
+	for k := range kf {
+		out = append(out, k)
+	}
+	sort.Strings(out)
+	return out
 }
 
 func (c19) Category(inAny any, obsAny any) (string, bool) {
@@ -412,8 +438,7 @@ func (c19) Category(inAny any, obsAny any) (string, bool) {
 				worst = s.Outcome
 			}
 		}
-		res += fmt.Sprintf("/served-%d-worst-%d", len(obs.Served), worst)
-		unrouted, dots, inbase := 0, 0, 0
+		unrouted, dots := 0, 0
 		for _, rt := range obs.Routed {
 			if !rt.Found {
 				unrouted++
@@ -425,7 +450,7 @@ func (c19) Category(inAny any, obsAny any) (string, bool) {
 				dots = 1
 			}
 			if b != "" && strings.Contains(o.Path, b) {
-				inbase = 1
+				dots |= 2 // the base path occurs inside a template
 			}
 		}
 		bc := "none"
@@ -440,7 +465,10 @@ func (c19) Category(inAny any, obsAny any) (string, bool) {
 		default:
 			bc = "plain"
 		}
-		res += fmt.Sprintf("/base-%s/dots-%d/base-in-template-%d/unrouted-%d", bc, dots, inbase, unrouted)
+		res = fmt.Sprintf("valid/served-%d/worst-%d/base-%s/dots-or-base-in-template-%d", len(obs.Served), worst, bc, dots)
+		if unrouted > 0 {
+			res += fmt.Sprintf("/unrouted-%d", unrouted)
+		}
 	}
 	if obs.Panicked {
 		res = "panic"
@@ -466,6 +494,24 @@ var c19Segs = []string{"a", "b", "c", "d", "e", "items", "items.json", "v1.0", "
 // is the placeholder, or a template built around the base path (the base path repeated as leading segments, as
 // trailing segments, or as a substring of a segment)
 func c19Template(r *rand.Rand, base string) string {
+	t := c19CleanTemplate(r, base)
+	if r.Intn(30) == 0 {
+		return "/" // the root template
+	}
+	if r.Intn(40) == 0 { // rarely a template that path.Clean would change (F-C19-2)
+		switch r.Intn(4) {
+		case 0:
+			return t + "/" + "/x"
+		case 1:
+			return t + "/./y"
+		default:
+			return t + "/"
+		}
+	}
+	return t
+}
+
+func c19CleanTemplate(r *rand.Rand, base string) string {
 	seg := func() string { return c19Segs[r.Intn(len(c19Segs))] }
 	switch v := r.Intn(10); {
 	case v < 3:
